@@ -13,7 +13,7 @@ R6 re-import: the one-graph-per-store flavour may skip an import only when a non
 import ast
 
 from ..core import AnalysisError, norm, loc, walk_no_nested, attr_chain, call_name, kwarg, func_params
-from ..normalize import local_env, expand, ctext, canon, conjuncts
+from ..normalize import local_env, expand, ctext, canon, conjuncts, negate, _enclosing
 from .. import nxgraph as nxg
 from .. import flow
 
@@ -53,17 +53,24 @@ def run(prog, rep):
         raise AnalysisError('disjoint add_graph vanished')
     ag = nxg.method(prog, dj, ag0)
     gid = [p_ for p_ in func_params(ag) if p_ != 'self'][0]
-    for n in walk_no_nested(ag):
-        if not (isinstance(n, ast.If) and any(isinstance(x, ast.Return) for x in n.body)):
-            continue
-        cjs = conjuncts(canon(n.test))
+    # the conditions under which the import is skipped: the negation of each guard (enclosing test or preceding guard
+    # clause) of the statement that stores the imported graph
+    stores = [x for x in walk_no_nested(ag) if isinstance(x, ast.Assign) and isinstance(x.targets[0], ast.Subscript) and
+              isinstance(x.targets[0].slice, ast.Name) and x.targets[0].slice.id == gid and (attr_chain(x.targets[0].value) or [None])[:1] == ['self']]
+    if not stores:
+        raise AnalysisError('disjoint add_graph: the statement that stores the imported graph was not found')
+    _, guards_ = _enclosing(stores[0], ag)
+    for g_ in guards_:
+        n = g_
+        skip = canon(negate(canon(g_)))
+        cjs = conjuncts(skip)
         member = [c for c in cjs if isinstance(c, ast.Compare) and len(c.ops) == 1 and isinstance(c.ops[0], ast.In) and
                   isinstance(c.left, ast.Name) and c.left.id == gid and (attr_chain(c.comparators[0]) or [None, None])[:1] == ['self']]
         if not member:
             continue
         store_attr = attr_chain(member[0].comparators[0])[1]
         others = [c for c in cjs if c is not member[0]]
-        rep.instance('R6', f'{dj.name}.add_graph skips the import when `{norm(n.test, 90)}`')
+        rep.instance('R6', f'{dj.name}.add_graph skips the import when `{norm(skip, 90)}`')
         if others:
             continue        # presence is not judged by membership alone
         # membership alone: sound only if no entry can exist without an imported graph
@@ -82,7 +89,7 @@ def run(prog, rep):
                 if any(isinstance(x, ast.Subscript) and isinstance(x.ctx, ast.Load) and ast.unparse(x.value) == f'self.{store_attr}' for x in ast.walk(m_)):
                     leftovers.append(f'{mname} reads self.{store_attr}[id], which creates an empty entry in the defaultdict')
         if leftovers:
-            rep.violation('R6', loc(dj.module, n), f'{dj.name}.add_graph', f'import skipped when `{norm(n.test, 80)}`',
+            rep.violation('R6', loc(dj.module, stores[0]), f'{dj.name}.add_graph', f'import skipped when `{norm(skip, 80)}`',
                           f'add_graph treats any entry of self.{store_attr} as an imported graph and silently skips the import, but '
                           f'entries exist without a graph: {"; ".join(leftovers[:3])}. Deleting a graph and importing it again under '
                           f'the same id (or importing under an id that was only looked up) yields an empty graph on this store '
